@@ -224,10 +224,11 @@ structure PreWF (spec : List (Nat × Nat)) (b : Bracket) : Prop where
   top : ∀ k prev next, b.rungs[k]? = some prev → b.rungs[k + 1]? = some next →
             TopRel b.mode (b.rungs.take (k + 1)) prev next
   nodup : ∀ r ∈ b.rungs, r.ids.Nodup
+  base : ∀ r, b.rungs[0]? = some r → ∀ x ∈ r.slots, x.tid.isSome = true → x.metric.isSome = true
 
 theorem written_pre (hw : BWF spec b) (hl : LegalRes b res rg sl) : PreWF spec (b.written rg res) := by
   have hcl := cur_lt hl
-  refine ⟨hw.kind, hw.specOk, (written_shape hl).trans hw.shape, ?_, ?_, ?_, ?_, ?_⟩
+  refine ⟨hw.kind, hw.specOk, (written_shape hl).trans hw.shape, ?_, ?_, ?_, ?_, ?_, ?_⟩
   · simp only [Bracket.written, List.length_set]; exact hw.len
   · intro k r hk hr
     have hk' : k < b.current := hk
@@ -286,12 +287,17 @@ theorem written_pre (hw : BWF spec b) (hl : LegalRes b res rg sl) : PreWF spec (
               · exact h.1
             right
             refine ⟨ho', ?_⟩
-            intro t ht r hr
+            intro t ht
+            refine ⟨hl.hm, ?_⟩
+            intro r hr
             have hfr := hl.fresh htn t ht
             intro hc
             exact hfr ⟨r, List.mem_of_mem_take hr, hc⟩
           · simp only
-            rw [← hte]; exact hold
+            rw [← hte]
+            rcases hold with h | ⟨h1, h2⟩
+            · exact Or.inl h
+            · exact Or.inr ⟨h1, fun t ht => ⟨hl.hm, (h2 t ht).2⟩⟩
         · simp only [Rung.write, List.getElem?_set_ne hp] at hs
           exact hpt p o s ho hs
       · -- `k ≥ current`: there is no rung `k+1`
@@ -308,6 +314,17 @@ theorem written_pre (hw : BWF spec b) (hl : LegalRes b res rg sl) : PreWF spec (
       · intro htn t ht hc
         exact hl.fresh htn t ht ⟨rg, List.mem_of_getElem? hl.hrg, hc⟩
       · exact hw.nodup rg (List.mem_of_getElem? hl.hrg)
+  · intro r hr y hy hyt
+    change (b.written rg res).rungs[0]? = some r at hr
+    by_cases h0 : b.current = 0
+    · rw [← h0, written_cur hl] at hr
+      have : r = rg.write res := (Option.some.inj hr).symm
+      subst this
+      rcases List.mem_or_eq_of_mem_set hy with h | h
+      · exact hw.base rg (h0 ▸ hl.hrg) y h hyt
+      · subst h; exact hl.hm
+    · rw [written_other 0 (by omega)] at hr
+      exact hw.base r hr y hy hyt
 
 /-- the rung is complete exactly when every slot is occupied -/
 theorem rungDone_iff (hw : BWF spec b) (hl : LegalRes b res rg sl) :
@@ -331,7 +348,7 @@ theorem rungDone_iff (hw : BWF spec b) (hl : LegalRes b res rg sl) :
 theorem written_wf_of_not_done (hw : BWF spec b) (hl : LegalRes b res rg sl)
     (hnd : ¬ RungDone (rg.write res) b.firstFree) : BWF spec (b.written rg res) := by
   have hpre := written_pre hw hl
-  refine ⟨hpre.kind, hpre.specOk, hpre.shape, hpre.len, hpre.done, hpre.free, ?_, hpre.top, hpre.nodup⟩
+  refine ⟨hpre.kind, hpre.specOk, hpre.shape, hpre.len, hpre.done, hpre.free, ?_, hpre.top, hpre.nodup, hpre.base⟩
   intro r hr
   have hr' : (b.written rg res).rungs[b.current]? = some r := hr
   rw [written_cur hl] at hr'
@@ -386,7 +403,7 @@ theorem last_wf (hw : BWF spec b) (hl : LegalRes b res rg sl)
   have hnone : (b.written rg res).rungs[b.current + 1]? = none := by
     apply List.getElem?_eq_none
     rw [hlen, hw.len]; omega
-  refine ⟨hpre.kind, hpre.specOk, hpre.shape, ?_, ?_, ?_, ?_, hpre.top, hpre.nodup⟩
+  refine ⟨hpre.kind, hpre.specOk, hpre.shape, ?_, ?_, ?_, ?_, hpre.top, hpre.nodup, hpre.base⟩
   · have := hpre.len
     change (b.written rg res).rungs.length = min (b.current + 1) spec.length at this
     change (b.written rg res).rungs.length = min (b.current + 1 + 1) spec.length
@@ -443,7 +460,7 @@ theorem promote_wf (hw : BWF spec b) (hl : LegalRes b res rg sl)
     intro k hk; exact List.getElem?_append_left (by omega)
   have hnewget : (R ++ [new])[b.current + 1]? = some new := by
     rw [List.getElem?_append_right (by omega)]; simp [hRlen]
-  refine ⟨hpre.kind, hpre.specOk, ?_, ?_, ?_, ?_, ?_, ?_, ?_⟩
+  refine ⟨hpre.kind, hpre.specOk, ?_, ?_, ?_, ?_, ?_, ?_, ?_, ?_⟩
   · -- shape
     have h1 := hpre.shape
     unfold Bracket.shape at h1 ⊢
@@ -526,6 +543,10 @@ theorem promote_wf (hw : BWF spec b) (hl : LegalRes b res rg sl)
       apply topList_nodup
       rw [es_ids hes]
       exact hpre.nodup (rg.write res) (List.mem_of_getElem? (written_cur hl))
+  · intro r hr
+    change (R ++ [new])[0]? = some r at hr
+    rw [hleft 0 (by omega)] at hr
+    exact hpre.base r hr
 
 /-- **`on_result` on a legal call**: it does not raise, one of the three outcomes
 applies, and the invariant is kept. -/
